@@ -1171,6 +1171,15 @@ func Run(c *ev.Ctx) int {
 			w.run()
 		}()
 	}
+	for _, sc := range []bool{false, true} {
+		for _, k := range []string{"policy", "acl-grants", "acl-public"} {
+			wg.Add(1)
+			go func(sc bool, k string) {
+				defer wg.Done()
+				rebornLane(c, sc, k)
+			}(sc, k)
+		}
+	}
 	wg.Wait()
 	return c.Finish("endpoint catalogue (+ cross-bucket / versioned copy sources, 3-key batch delete) x caller {root, admin, userplus, user} x {owner, non-owner} x generated "+
 		"configuration of target and source bucket (ACL from canned / grant kinds, or policy of 1-4 statements) with a decoy bucket open to the caller; reference = root/admin allow, "+
